@@ -16,6 +16,7 @@
 -/
 import Saltpack.Proofs.ArmorWriterFaults
 import Saltpack.Proofs.ArmoredSenderWritten
+import Saltpack.Proofs.SenderStreamWhole
 
 namespace Saltpack.Props.C14
 open Saltpack Saltpack.Sender Saltpack.Proofs Saltpack.Proofs.SenderP
@@ -25,7 +26,11 @@ open Saltpack Saltpack.Sender Saltpack.Proofs Saltpack.Proofs.SenderP
 /-- **sticky**: a call during which an underlying write failed leaves the stream
     failed (`s.err` set); a failed stream refuses every later call — any sequence
     of `Write`s and `Close`s returns `(0, error)` each — and nothing changes any
-    more: not the writer, not the buffer, not the encoder -/
+    more: not the writer, not the buffer, not the encoder.  (For a SINGLE call
+    the third conjunct is the first line of `Write`/`Close` unfolded — `if s.err
+    != nil { return 0, s.err }`; its content is the induction over arbitrary call
+    sequences, and `C14_armor_stream_sticky_run` ties `failed` to "an underlying
+    write has failed" along runs from the constructor.) -/
 theorem C14_armor_stream_sticky (a : FArm) (b : Bytes) :
     ((a.write b).2.w.faults ≠ a.w.faults → (a.write b).2.failed = true) ∧
     (a.close.2.w.faults ≠ a.w.faults → a.close.2.failed = true) ∧
@@ -35,14 +40,14 @@ theorem C14_armor_stream_sticky (a : FArm) (b : Bytes) :
 /-- …along whole runs: constructor, then ANY calls `ops1` (whatever they
     returned); if by then an underlying write has failed, every later call of
     `ops2` returns an error and nothing more reaches the writer -/
-theorem C14_armor_stream_sticky_run (par : Armor.Params) (hdr ftr : Bytes) (sink : Stream.Sink)
+theorem C14_armor_stream_sticky_run (par : Armor.Params) (hdr ftr : Bytes) (sink : Stream.Sink) (part : List Nat)
     (ops1 ops2 : List (Option Bytes)) :
-    let i := FArm.init par hdr ftr ({ sink := sink } : Wr)
+    let i := FArm.init par hdr ftr ({ sink := sink, part := part } : Wr)
     let a := (FArm.calls i.2 ops1).2
     i.1 = true → a.w.faults ≠ 0 →
       FArm.calls a ops2 = (ops2.map (fun _ => (0, false)), a) ∧ (FArm.calls a ops2).2.w.bytes = a.w.bytes := by
   intro i a hi hne
-  have h0 := (farm_init_sim par hdr ftr sink hi).2.2
+  have h0 := (farm_init_sim par hdr ftr sink part hi).2.2
   have hf : a.failed = true := farm_calls_fault_flag 0 ops1 i.2 (fun h => absurd h0 h) hne
   have := farm_calls_failed ops2 a hf
   exact ⟨this, by rw [this]⟩
@@ -60,7 +65,8 @@ theorem C14_armor_stream_error_iff_fault (a : FArm) (b : Bytes) (he : a.EncOk) (
   rw [(farm_encOk_close a he).1, hf] at h2
   exact ⟨farm_write_flag a b hf, farm_close_flag a hf, by simpa using h1, by simpa using h2⟩
 
-/-- the byte count: a refused `Write` returns 0; any other returns `len(b)` —
+/-- the byte count: a refused `Write` returns 0 (first conjunct: the first line
+    of `Write` unfolded, stated for completeness); any other returns `len(b)` —
     also the one in which `spaceAndOutputBuffer` fails (`return n, err`) -/
 theorem C14_armor_write_count (a : FArm) (b : Bytes) (he : a.EncOk) :
     (a.failed = true → a.writeN b = (0, false, a)) ∧ (a.failed = false → (a.writeN b).1 = b.length) :=
@@ -75,45 +81,45 @@ theorem C14_armor_write_count (a : FArm) (b : Bytes) (he : a.EncOk) :
     what reached the writer is exactly the armored text of everything that was
     passed to `Write`. -/
 theorem C14_armor_close_ok_means_all_written (par : Armor.Params) (he : par.enc.WF) (hw : 0 < par.bytesPerWord)
-    (hdr ftr : Bytes) (sink : Stream.Sink) (ws : List Bytes) :
-    let i := FArm.init par hdr ftr ({ sink := sink } : Wr)
+    (hdr ftr : Bytes) (sink : Stream.Sink) (part : List Nat) (ws : List Bytes) :
+    let i := FArm.init par hdr ftr ({ sink := sink, part := part } : Wr)
     let c := (FArm.calls i.2 (ws.map some)).2.close
     i.1 = true → c.1 = true → c.2.w.faults = 0 ∧ c.2.w.bytes = Armor.sealText par hdr ftr ws.flatten := by
   intro i c hi hc
-  have h := (farm_run_close par he hw hdr ftr sink ws hi).1
+  have h := (farm_run_close par he hw hdr ftr sink part ws hi).1
   rw [← farm_calls_writes] at h
   exact h hc
 
 /-- …for the shipped parameters: `NewArmor62EncoderStream(w, typ, brand)` -/
-theorem C14_armor62_close_ok_means_all_written (typ : Int) (brand : Bytes) (sink : Stream.Sink) (ws : List Bytes) :
-    let i := FArm.init62 typ brand ({ sink := sink } : Wr)
+theorem C14_armor62_close_ok_means_all_written (typ : Int) (brand : Bytes) (sink : Stream.Sink) (part : List Nat) (ws : List Bytes) :
+    let i := FArm.init62 typ brand ({ sink := sink, part := part } : Wr)
     let c := (FArm.calls i.2 (ws.map some)).2.close
     i.1 = true → c.1 = true → c.2.w.faults = 0 ∧ c.2.w.bytes = Armor.seal62 typ brand ws.flatten :=
-  C14_armor_close_ok_means_all_written Armor.params62 (Basex.Enc.wf_of_check _ (by decide)) (by decide) _ _ sink ws
+  C14_armor_close_ok_means_all_written Armor.params62 (Basex.Enc.wf_of_check _ (by decide)) (by decide) _ _ sink part ws
 
 /-- **on failure: a prefix, never a text with a word or a separator missing in
     the middle** — whatever failed and whatever the calls returned, after the
     `Write`s and after `Close` the writer holds a prefix of the complete armored
     text of everything passed to `Write` -/
 theorem C14_armor_failure_prefix (par : Armor.Params) (he : par.enc.WF) (hw : 0 < par.bytesPerWord)
-    (hdr ftr : Bytes) (sink : Stream.Sink) (ws : List Bytes) :
-    let i := FArm.init par hdr ftr ({ sink := sink } : Wr)
+    (hdr ftr : Bytes) (sink : Stream.Sink) (part : List Nat) (ws : List Bytes) :
+    let i := FArm.init par hdr ftr ({ sink := sink, part := part } : Wr)
     let r := (FArm.calls i.2 (ws.map some)).2
     i.1 = true →
       r.w.bytes <+: Armor.sealText par hdr ftr ws.flatten ∧
       r.close.2.w.bytes <+: Armor.sealText par hdr ftr ws.flatten := by
   intro i r hi
-  have h1 := farm_run_prefix par he hw hdr ftr sink ws hi
-  have h2 := (farm_run_close par he hw hdr ftr sink ws hi).2
+  have h1 := farm_run_prefix par he hw hdr ftr sink part ws hi
+  have h2 := (farm_run_close par he hw hdr ftr sink part ws hi).2
   rw [← farm_calls_writes] at h1 h2
   exact ⟨h1, h2⟩
 
-theorem C14_armor62_failure_prefix (typ : Int) (brand : Bytes) (sink : Stream.Sink) (ws : List Bytes) :
-    let i := FArm.init62 typ brand ({ sink := sink } : Wr)
+theorem C14_armor62_failure_prefix (typ : Int) (brand : Bytes) (sink : Stream.Sink) (part : List Nat) (ws : List Bytes) :
+    let i := FArm.init62 typ brand ({ sink := sink, part := part } : Wr)
     let r := (FArm.calls i.2 (ws.map some)).2
     i.1 = true →
       r.w.bytes <+: Armor.seal62 typ brand ws.flatten ∧ r.close.2.w.bytes <+: Armor.seal62 typ brand ws.flatten :=
-  C14_armor_failure_prefix Armor.params62 (Basex.Enc.wf_of_check _ (by decide)) (by decide) _ _ sink ws
+  C14_armor_failure_prefix Armor.params62 (Basex.Enc.wf_of_check _ (by decide)) (by decide) _ _ sink part ws
 
 /-! ## the armored SENDERS (`NewEncryptArmor62Stream`, `NewSignArmor62Stream`,
      `NewSigncryptArmor62SealStream`): packet stream → go-codec → armor encoder stream →
@@ -126,8 +132,8 @@ theorem C14_armor62_failure_prefix (typ : Int) (brand : Bytes) (sink : Stream.Si
     message for the concatenated plaintext -/
 theorem C14_armored_success_means_written (cfg : Cfg) (hp : ∀ b, (cfg.pieces b).flatten = b) (hb : 0 < cfg.bs)
     (hif : IndexFail cfg.pkt) (v : Version) (hv : cfg.v1shape = (v == v1)) (typ : Int) (brand : Bytes)
-    (sink : Stream.Sink) (headerBytes : Bytes) (ws : List Bytes) :
-    let a := FArm.init62 typ brand ({ sink := sink } : Wr)
+    (sink : Stream.Sink) (part : List Nat) (headerBytes : Bytes) (ws : List Bytes) :
+    let a := FArm.init62 typ brand ({ sink := sink, part := part } : Wr)
     let i := PSt.init FArm.write cfg.pieces a.2 headerBytes
     let r := PSt.writes FArm.write cfg i.2 ws
     let c := armoredClose cfg r.2
@@ -136,7 +142,28 @@ theorem C14_armored_success_means_written (cfg : Cfg) (hp : ∀ b, (cfg.pieces b
         c.2.codec.w.w.bytes = Armor.seal62 typ brand M ∧ c.2.codec.w.w.faults = 0 := by
   intro a i r c ha hi hws hc
   exact armored_success cfg hp hb hif v hv Armor.params62 (Basex.Enc.wf_of_check _ (by decide)) (by decide)
-    (Armor.header typ brand) (Armor.footer typ brand) sink headerBytes ws ha hi hws hc
+    (Armor.header typ brand) (Armor.footer typ brand) sink part headerBytes ws ha hi hws hc
+
+/-- **`closeForwarder.Close` returned nil ⇒ completely written, armored** — the
+    property's second clause with NO hypothesis on what the packet stream's
+    constructor and the `Write`s returned (only that the armor constructor
+    returned a stream at all): the packet stream's constructor succeeded, every
+    `Write` returned `(len p, nil)`, no underlying write failed and the writer
+    holds exactly the Armor62 text of the all-at-once binary message -/
+theorem C14_armored_close_ok_means_written (cfg : Cfg) (hp : ∀ b, (cfg.pieces b).flatten = b) (hb : 0 < cfg.bs)
+    (hif : IndexFail cfg.pkt) (v : Version) (hv : cfg.v1shape = (v == v1)) (typ : Int) (brand : Bytes)
+    (sink : Stream.Sink) (part : List Nat) (headerBytes : Bytes) (ws : List Bytes) :
+    let a := FArm.init62 typ brand ({ sink := sink, part := part } : Wr)
+    let i := PSt.init FArm.write cfg.pieces a.2 headerBytes
+    let r := PSt.writes FArm.write cfg i.2 ws
+    let c := armoredClose cfg r.2
+    a.1 = true → c.1 = none →
+      i.1 = true ∧ (∀ x ∈ r.1, x.2 = none) ∧
+      ∃ M, oneShot cfg v headerBytes ws.flatten = .ok M ∧
+        c.2.codec.w.w.bytes = Armor.seal62 typ brand M ∧ c.2.codec.w.w.faults = 0 := by
+  intro a i r c ha hc
+  obtain ⟨hi, hws⟩ := armored_close_ok_all_ok cfg hp hb hif a.2 headerBytes ws hc
+  exact ⟨hi, hws, C14_armored_success_means_written cfg hp hb hif v hv typ brand sink part headerBytes ws ha hi hws hc⟩
 
 /-- `NewEncryptArmor62Stream` + `Write`* + `Close`: every call reported success ⇒
     the writer holds `Armor.seal62 typ brand` of `Encrypt.sealWith` of the
@@ -144,8 +171,8 @@ theorem C14_armored_success_means_written (cfg : Cfg) (hp : ∀ b, (cfg.pieces b
 theorem C14_encrypt_armored_success_means_written (P : Prims) (bs : Nat) (hb : 0 < bs) (pieces : Bytes → List Bytes)
     (hp : ∀ b, (pieces b).flatten = b) (v : Version) (sender : Option Bytes) (rs : List Encrypt.Recipient)
     (eph pk : Bytes) (hbytes : Bytes) (cfg : Cfg) (hs : encryptSetup P bs pieces v sender rs eph pk = .ok (hbytes, cfg))
-    (typ : Int) (brand : Bytes) (sink : Stream.Sink) (ws : List Bytes) :
-    let a := FArm.init62 typ brand ({ sink := sink } : Wr)
+    (typ : Int) (brand : Bytes) (sink : Stream.Sink) (part : List Nat) (ws : List Bytes) :
+    let a := FArm.init62 typ brand ({ sink := sink, part := part } : Wr)
     let i := PSt.init FArm.write cfg.pieces a.2 hbytes
     let r := PSt.writes FArm.write cfg i.2 ws
     let c := armoredClose cfg r.2
@@ -155,15 +182,15 @@ theorem C14_encrypt_armored_success_means_written (P : Prims) (bs : Nat) (hb : 0
   intro a i r c ha hi hws hc
   have hcfg := encryptSetup_cfg P bs pieces v sender rs eph pk hbytes cfg hs
   obtain ⟨M, hM, ho, _⟩ := C14_armored_success_means_written cfg (by rw [hcfg.2.1]; exact hp) (by rw [hcfg.1]; exact hb)
-    hcfg.2.2.2 v hcfg.2.2.1 typ brand sink hbytes ws ha hi hws hc
+    hcfg.2.2.2 v hcfg.2.2.1 typ brand sink part hbytes ws ha hi hws hc
   exact ⟨M, (sealWith_iff_oneShot P bs pieces v sender rs eph pk ws.flatten M).2 ⟨hbytes, cfg, hs, hM⟩, ho⟩
 
 /-- `NewSignArmor62Stream` likewise: `Sign.attachedWith` -/
 theorem C14_sign_armored_success_means_written (P : Prims) (bs : Nat) (hb : 0 < bs) (pieces : Bytes → List Bytes)
     (hp : ∀ b, (pieces b).flatten = b) (v : Version) (signer nonce : Bytes) (hbytes : Bytes) (cfg : Cfg)
     (hs : signSetup P bs pieces v signer nonce = .ok (hbytes, cfg))
-    (typ : Int) (brand : Bytes) (sink : Stream.Sink) (ws : List Bytes) :
-    let a := FArm.init62 typ brand ({ sink := sink } : Wr)
+    (typ : Int) (brand : Bytes) (sink : Stream.Sink) (part : List Nat) (ws : List Bytes) :
+    let a := FArm.init62 typ brand ({ sink := sink, part := part } : Wr)
     let i := PSt.init FArm.write cfg.pieces a.2 hbytes
     let r := PSt.writes FArm.write cfg i.2 ws
     let c := armoredClose cfg r.2
@@ -173,15 +200,15 @@ theorem C14_sign_armored_success_means_written (P : Prims) (bs : Nat) (hb : 0 < 
   intro a i r c ha hi hws hc
   have hcfg := signSetup_cfg P bs pieces v signer nonce hbytes cfg hs
   obtain ⟨M, hM, ho, _⟩ := C14_armored_success_means_written cfg (by rw [hcfg.2.1]; exact hp) (by rw [hcfg.1]; exact hb)
-    hcfg.2.2.2 v hcfg.2.2.1 typ brand sink hbytes ws ha hi hws hc
+    hcfg.2.2.2 v hcfg.2.2.1 typ brand sink part hbytes ws ha hi hws hc
   exact ⟨M, (attachedWith_iff_oneShot P bs pieces v signer nonce ws.flatten M).2 ⟨hbytes, cfg, hs, hM⟩, ho⟩
 
 /-- `NewSigncryptArmor62SealStream` likewise: `Signcrypt.sealWith` -/
 theorem C14_signcrypt_armored_success_means_written (P : Prims) (bs : Nat) (hb : 0 < bs) (pieces : Bytes → List Bytes)
     (hp : ∀ b, (pieces b).flatten = b) (sender : Option Bytes) (rs : List Signcrypt.Recipient) (eph pk : Bytes)
     (hbytes : Bytes) (cfg : Cfg) (hs : signcryptSetup P bs pieces sender rs eph pk = .ok (hbytes, cfg))
-    (typ : Int) (brand : Bytes) (sink : Stream.Sink) (ws : List Bytes) :
-    let a := FArm.init62 typ brand ({ sink := sink } : Wr)
+    (typ : Int) (brand : Bytes) (sink : Stream.Sink) (part : List Nat) (ws : List Bytes) :
+    let a := FArm.init62 typ brand ({ sink := sink, part := part } : Wr)
     let i := PSt.init FArm.write cfg.pieces a.2 hbytes
     let r := PSt.writes FArm.write cfg i.2 ws
     let c := armoredClose cfg r.2
@@ -191,8 +218,44 @@ theorem C14_signcrypt_armored_success_means_written (P : Prims) (bs : Nat) (hb :
   intro a i r c ha hi hws hc
   have hcfg := signcryptSetup_cfg P bs pieces sender rs eph pk hbytes cfg hs
   obtain ⟨M, hM, ho, _⟩ := C14_armored_success_means_written cfg (by rw [hcfg.2.1]; exact hp) (by rw [hcfg.1]; exact hb)
-    hcfg.2.2.2 v2 hcfg.2.2.1 typ brand sink hbytes ws ha hi hws hc
+    hcfg.2.2.2 v2 hcfg.2.2.1 typ brand sink part hbytes ws ha hi hws hc
   exact ⟨M, (scSealWith_iff_oneShot P bs pieces sender rs eph pk ws.flatten M).2 ⟨hbytes, cfg, hs, hM⟩, ho⟩
+
+/-- the three armored packet senders, `Close` alone: `NewEncryptArmor62Stream` /
+    `NewSignArmor62Stream` / `NewSigncryptArmor62SealStream` + `Write`* + `Close`
+    = nil ⇒ the writer holds `Armor.seal62 typ brand` of `Encrypt.sealWith` /
+    `Sign.attachedWith` / `Signcrypt.sealWith` of the concatenated plaintext -/
+theorem C14_armored_senders_close_ok_means_written (P : Prims) (bs : Nat) (hb : 0 < bs) (pieces : Bytes → List Bytes)
+    (hp : ∀ b, (pieces b).flatten = b) (typ : Int) (brand : Bytes) (sink : Stream.Sink) (part : List Nat) (ws : List Bytes)
+    (hbytes : Bytes) (cfg : Cfg)
+    (ha : (FArm.init62 typ brand ({ sink := sink, part := part } : Wr)).1 = true)
+    (hc : (armoredClose cfg (PSt.writes FArm.write cfg
+      (PSt.init FArm.write cfg.pieces (FArm.init62 typ brand ({ sink := sink, part := part } : Wr)).2 hbytes).2 ws).2).1 = none) :
+    let out := (armoredClose cfg (PSt.writes FArm.write cfg
+      (PSt.init FArm.write cfg.pieces (FArm.init62 typ brand ({ sink := sink, part := part } : Wr)).2 hbytes).2 ws).2).2.codec.w.w.bytes
+    (∀ v sender rs eph pk, encryptSetup P bs pieces v sender rs eph pk = .ok (hbytes, cfg) →
+      ∃ M, Encrypt.sealWith P bs v sender rs eph pk ws.flatten = .ok M ∧ out = Armor.seal62 typ brand M) ∧
+    (∀ v signer nonce, signSetup P bs pieces v signer nonce = .ok (hbytes, cfg) →
+      ∃ M, Sign.attachedWith P bs v signer nonce ws.flatten = .ok M ∧ out = Armor.seal62 typ brand M) ∧
+    (∀ sender rs eph pk, signcryptSetup P bs pieces sender rs eph pk = .ok (hbytes, cfg) →
+      ∃ M, Signcrypt.sealWith P bs sender rs eph pk ws.flatten = .ok M ∧ out = Armor.seal62 typ brand M) := by
+  intro out
+  refine ⟨fun v sender rs eph pk hs => ?_, fun v signer nonce hs => ?_, fun sender rs eph pk hs => ?_⟩
+  · have hcfg := encryptSetup_cfg P bs pieces v sender rs eph pk hbytes cfg hs
+    obtain ⟨hi, hws, _⟩ := C14_armored_close_ok_means_written cfg (by rw [hcfg.2.1]; exact hp) (by rw [hcfg.1]; exact hb)
+      hcfg.2.2.2 v hcfg.2.2.1 typ brand sink part hbytes ws ha hc
+    exact C14_encrypt_armored_success_means_written P bs hb pieces hp v sender rs eph pk hbytes cfg hs typ brand sink part ws
+      ha hi hws hc
+  · have hcfg := signSetup_cfg P bs pieces v signer nonce hbytes cfg hs
+    obtain ⟨hi, hws, _⟩ := C14_armored_close_ok_means_written cfg (by rw [hcfg.2.1]; exact hp) (by rw [hcfg.1]; exact hb)
+      hcfg.2.2.2 v hcfg.2.2.1 typ brand sink part hbytes ws ha hc
+    exact C14_sign_armored_success_means_written P bs hb pieces hp v signer nonce hbytes cfg hs typ brand sink part ws
+      ha hi hws hc
+  · have hcfg := signcryptSetup_cfg P bs pieces sender rs eph pk hbytes cfg hs
+    obtain ⟨hi, hws, _⟩ := C14_armored_close_ok_means_written cfg (by rw [hcfg.2.1]; exact hp) (by rw [hcfg.1]; exact hb)
+      hcfg.2.2.2 v2 hcfg.2.2.1 typ brand sink part hbytes ws ha hc
+    exact C14_signcrypt_armored_success_means_written P bs hb pieces hp sender rs eph pk hbytes cfg hs typ brand sink part ws
+      ha hi hws hc
 
 /-! ## non-vacuity (toy parameters `toyArm`: words of 2 characters, lines of 2 words, base62;
      header "H", footer "F"; kernel-evaluated) -/
